@@ -635,10 +635,16 @@ def check_branch(stack, ne, dus, top0, top1, box0, flags0, d, events):
         if lo > hi:
             out.append(("empty-sub-range", f"level {lvl}: sub-range [{lo},{hi}] is empty"))
         ranges.append((lo, hi, lvl))
-    covered = []
-    for lo, hi, lvl in ranges:
-        covered.extend(range(lo, hi + 1))
-    if sorted(covered) != list(range(a, b + 1)):
+    # non-empty sub-ranges, sorted, must tile [a,b] exactly (decided on the intervals: a wrong bound can be 2^31 away)
+    tiles = sorted((lo, hi) for lo, hi, _ in ranges if lo <= hi)
+    nxt = a
+    ok = True
+    for lo, hi in tiles:
+        if lo != nxt:
+            ok = False
+            break
+        nxt = hi + 1
+    if not ok or nxt != b + 1:
         out.append(
             ("not-a-partition", f"sub-ranges {[(lo, hi) for lo, hi, _ in ranges]} do not partition [{a},{b}]")
         )
